@@ -551,7 +551,24 @@ class Gen:
             assignable = list(writes) + [p for p in params if self.r.random() < 0.3]
             body = self.block(params + gl, 1, 0, None, f, [self.r.randint(2, 7)], assignable)
             lines += body
-            if ret:
+            if ret and self.f.get("tail_if_return", True) and self.r.random() < 0.3:
+                # the result is returned from the arms of an if/else that ends the function (no statement follows)
+                self.used.add("tail_if_return")
+                vs_ = params + gl
+                lines.append(f"    if {self.cmp(vs_, 1)}:")
+                if self.r.random() < 0.3:
+                    lines.append(f"        if {self.cmp(vs_, 1)}:")
+                    lines.append(f"            return {self.expr(vs_, 1, False)}")
+                    lines.append("        else:")
+                    lines.append(self.effect_stmt(vs_, "            "))
+                    lines.append(f"            return {self.expr(vs_, 1, False)}")
+                else:
+                    lines.append(f"        return {self.expr(vs_, 1, False)}")
+                lines.append("    else:")
+                if self.r.random() < 0.4:
+                    lines.append(self.effect_stmt(vs_, "        "))
+                lines.append(f"        return {self.expr(vs_, 1, False)}")
+            elif ret:
                 lines.append(f"    return {self.expr(params + gl, 1, False)}")
             if not ret:
                 lines += tail_guard(body, {g.name: g.ret for g in self.funcs}, self.f)
